@@ -101,6 +101,12 @@ def _start_states():
             h2.rx([wire.headers(1, sb(H.REQ_POST))])
         h2.api("update_settings", {4: 10})
         S[r + "-iws-down-pending"] = (client, pickle.dumps(h2.conn))
+        if not client:
+            h3 = H.Solo(False)
+            h3.rx([wire.settings([], ack=True)])
+            h3.api("update_settings", {3: 1})
+            h3.rx([wire.settings([], ack=True)])
+            S["s-mcs1"] = (False, pickle.dumps(h3.conn))
     return S
 
 
@@ -133,6 +139,16 @@ def build_streams():
                     [wire.data(1, b"12345").serialize(), ack, wire.data(1, b"123456").serialize()]))
         out.append((r + "-iws-down/data+ack", r + "-iws-down-pending",
                     [wire.data(1, b"12345678901").serialize(), ack, wire.data(1, b"1").serialize()]))
+    # traffic behind a GOAWAY (every further frame is refused - in whichever call it arrives)
+    out.append(("c-valid/goaway-then-more", "c-valid", [wire.goaway(1, 0, b"bye").serialize(), wire.headers(1, sb(H.RESP)).serialize(),
+                                                        wire.data(1, b"late", es=True).serialize()]))
+    out.append(("s-valid/goaway-then-more", "s-valid", [wire.goaway(0, 0).serialize(), wire.ping(b"12345678").serialize(),
+                                                        wire.headers(1, sb(H.REQ), es=True).serialize()]))
+    # open / close / open at the concurrency limit (1, acknowledged) within one stretch of bytes
+    rq = sb(H.REQ)
+    out.append(("s-mcs1/open-reset-open", "s-mcs1", [wire.headers(1, rq).serialize(), wire.rst_stream(1, 8).serialize(),
+                                                     wire.headers(3, rq).serialize(), wire.rst_stream(3, 8).serialize(),
+                                                     wire.headers(5, rq, es=True).serialize()]))
     # fresh server: preface + SETTINGS + traffic; and a broken preface
     out.append(("s-fresh/preface+traffic", "s-fresh",
                 [wire.PREFACE, wire.settings([(3, 5)]).serialize(),
